@@ -3,6 +3,7 @@
 
 mod engine;
 mod gen;
+mod mutate;
 mod props;
 mod terms;
 mod universe;
@@ -98,7 +99,7 @@ fn do_replay(id: &str, prop: &props::Property, path: &str) -> i32 {
             println!("replay {path}: PASS");
             0
         }
-        Ok(engine::Verdict::Fail { signature, detail }) => {
+        Ok(engine::Verdict::Fail { signature, detail }) | Ok(engine::Verdict::Known { signature, detail, .. }) => {
             println!("VIOLATION property={id} replay={path}");
             println!("  campaign={campaign} signature={signature} detail={}", engine::truncate(&detail, 3000));
             1
